@@ -16,6 +16,7 @@ func init() {
 			"O1 position bookkeeping: every consumer of dr.currentNodeData (bytes.Reader Read/WriteTo) adds exactly the count it consumed to dr.offset on every non-error path; dr.offset is written only in three shapes (+= consumed count, = 0 together with dropping the buffer and rebuilding the walker, = the requested offset on the walker-seek nil-edge); the leaf buffer is dropped only when exhausted (Len()==0) or in the reset; it is (re)filled only from ReadUnixFSNodeData of the visited node on its nil-edge; Seek(SeekStart) resets the position before walking; " +
 			"O2 Seek interprets SeekStart/SeekCurrent/SeekEnd with an error default, SeekCurrent/SeekEnd targets are base+offset (SeekEnd relative to Size), negative targets are rejected before any state change (Seeker family rule shared with C10); " +
 			"O3 io.EOF is returned only where the walker error is ipld.EndOfDag; a visitor that fills a caller buffer pauses the walk when (and only when) the buffer is full; " +
+			"O5 every count consumed by Read/CtxReadFull/WriteTo (directly or in the walk visitor) is added to the count returned to the caller on every non-error path, leaf data is copied to buffer[count:], the buffer-full tests compare that count with len(buffer), and a read returns before walking only when the buffer is full; " +
 			"O4 seek arithmetic: the remaining distance is decreased by a child's block size only where that size was tested <= the remaining distance, the size comes from BlockSize(ActiveChildIndex()), the descent is refused when link and blocksize counts differ, and the leaf is positioned with Seek(remaining, io.SeekStart). " +
 			"NOT decided: byte-level equivalence with bytes.Reader, behaviour of go-ipld-format's Walker, content of the DAG.",
 		Assume:    []string{"bytes.Reader and ipld.Walker behave as documented", "dagReader fields are only reachable from package unixfs/io (unexported)"},
@@ -58,6 +59,7 @@ func runC09(c *an.Ctx) {
 	// ---- O1a: consumers add the consumed count
 	nCons := 0
 	partialConsumers := map[*ssa.Function]bool{} // functions that may leave bytes in the buffer (Read)
+	consumerFns := map[*ssa.Function]bool{}      // every function that consumes dr.currentNodeData
 	for _, fn := range fns {
 		for _, call := range an.Calls(fn, brRead...) {
 			recv := an.Recv(call)
@@ -66,6 +68,7 @@ func runC09(c *an.Ctx) {
 			}
 			nCons++
 			ci := an.Callee(call)
+			consumerFns[fn] = true
 			if ci.Name != "WriteTo" {
 				partialConsumers[fn] = true
 			}
@@ -353,6 +356,196 @@ func runC09(c *an.Ctx) {
 		}
 	}
 	c.Min("O3 buffer-filling visitors", nPause, 1)
+
+	// ---- O5: the count returned to the caller accumulates every consumed count, and a bounded buffer is filled at
+	// the position given by that count
+	nAcc := 0
+	for _, g := range fns {
+		if g.Parent() != nil || consumerFns[g] {
+			continue
+		}
+		var calls []ssa.CallInstruction
+		for _, h := range an.WithClosures(g) {
+			for _, k := range an.AllCalls(h) {
+				if callee := an.Callee(k).Static; callee != nil && consumerFns[callee] {
+					calls = append(calls, k)
+				}
+			}
+		}
+		if len(calls) == 0 {
+			continue
+		}
+		res := g.Signature.Results()
+		if res.Len() == 0 {
+			continue
+		}
+		if b, ok := res.At(0).Type().Underlying().(*types.Basic); !ok || b.Info()&types.IsInteger == 0 {
+			continue
+		}
+		// the count cell: the named result loaded by every return
+		var cell *ssa.Alloc
+		cellOK := true
+		for _, r := range an.Returns(g) {
+			u, ok := r.Results[0].(*ssa.UnOp)
+			if !ok || u.Op != token.MUL {
+				cellOK = false
+				continue
+			}
+			a, ok := u.X.(*ssa.Alloc)
+			if !ok || (cell != nil && a != cell) {
+				cellOK = false
+				continue
+			}
+			cell = a
+		}
+		if !cellOK || cell == nil {
+			// the count is not a single variable: only direct "return consumer(...)" forwarding is accepted
+			for _, k := range calls {
+				nAcc++
+				fwd := false
+				if k.Parent() == g {
+					for _, r := range an.Returns(g) {
+						for _, v := range an.Result(k, 0) {
+							if r.Results[0] == v {
+								fwd = true
+							}
+						}
+					}
+				}
+				c.Check(fwd, "O5", "R-FLOW", an.FuncName(g), "count<-"+an.Callee(k).Name, k.Pos(), "the consumed count is returned", "a count consumed from the leaf buffer is not returned to the caller")
+			}
+			continue
+		}
+		isCellLoad := func(v ssa.Value) bool {
+			u, ok := v.(*ssa.UnOp)
+			return ok && u.Op == token.MUL && an.CellOf(u.X) == cell
+		}
+		for _, k := range calls {
+			h := k.Parent()
+			nAcc++
+			rs := an.Result(k, 0)
+			isR := func(v ssa.Value) bool {
+				v = an.XBStripConv(v)
+				for _, r := range rs {
+					if v == r {
+						return true
+					}
+				}
+				return false
+			}
+			var accs []ssa.Instruction
+			direct := false
+			an.Instrs(h, func(in ssa.Instruction) {
+				st, ok := in.(*ssa.Store)
+				if !ok || an.CellOf(st.Addr) != cell {
+					return
+				}
+				if b, ok := st.Val.(*ssa.BinOp); ok && b.Op == token.ADD && ((isCellLoad(b.X) && isR(b.Y)) || (isCellLoad(b.Y) && isR(b.X))) {
+					accs = append(accs, st)
+				} else if isR(st.Val) && h == g && !an.XBInCycle(k.Block()) {
+					// "n = consume(...)": only as the first consumption of the call (count still zero)
+					first := true
+					for _, k2 := range calls {
+						if k2 != k && k2.Parent() == g && an.Reaches(g, k2, k, nil, nil) {
+							first = false
+						}
+					}
+					if first {
+						accs = append(accs, st)
+						direct = true
+					}
+				}
+			})
+			cut := an.EdgeSet{}
+			for _, e := range an.ErrResult(k) {
+				cut = cut.Union(an.XBNilEdgesVia(h, e, false))
+			}
+			blocked := map[ssa.Instruction]bool{}
+			for _, a := range accs {
+				blocked[a] = true
+			}
+			// accumulate before the error test is fine too; what matters is that no non-error path to a return skips it
+			esc := an.ReachesAnyReturn(h, k, cut, blocked)
+			c.Check(len(accs) > 0 && esc == nil, "O5", "R-FLOW", an.FuncName(h), "count+="+an.Callee(k).Name, k.Pos(),
+				"the consumed count is added to the count returned to the caller on every non-error path",
+				"bytes consumed from the leaf buffer are not added to the returned count (n += consumed) on every non-error path: Read/WriteTo report fewer bytes than they delivered, callers lose or re-read data")
+			// bounded buffer: the destination is buffer[count:] (or the whole buffer for the first, directly assigned, consumption)
+			args := an.Args(k)
+			if len(args) == 1 {
+				if _, isSlice := args[0].Type().Underlying().(*types.Slice); isSlice {
+					okDst := false
+					switch a := args[0].(type) {
+					case *ssa.Slice:
+						okDst = a.High == nil && a.Low != nil && isCellLoad(a.Low)
+					default:
+						okDst = direct
+					}
+					c.Check(okDst, "O5", "R-FLOW", an.FuncName(h), "dst=buffer[count:]", k.Pos(),
+						"leaf data is copied to buffer[count:]", "leaf data is copied to a position of the caller's buffer that is not buffer[count:]: bytes of successive leaves overwrite each other or leave gaps")
+				}
+			}
+		}
+		// the "buffer full" tests compare that same count with len(buffer)
+		for _, h := range an.WithClosures(g) {
+			for _, r := range an.XBEdgeRels(h) {
+				if r.Op != token.EQL && r.Op != token.NEQ {
+					continue
+				}
+				isLen := func(v ssa.Value) bool {
+					call, ok := v.(*ssa.Call)
+					return ok && an.Callee(call).Builtin == "len"
+				}
+				var other ssa.Value
+				if isLen(r.X) {
+					other = r.Y
+				} else if isLen(r.Y) {
+					other = r.X
+				} else {
+					continue
+				}
+				if _, isK := an.XBInt64(other); isK {
+					continue
+				}
+				nAcc++
+				c.Check(isCellLoad(other), "O5", "R-CMP", an.FuncName(h), "full<=>count==len(buffer)", h.Pos(),
+					"buffer-full test compares the accumulated count with len(buffer)", "the buffer-full test compares len(buffer) with something other than the accumulated count")
+				break
+			}
+		}
+		// a success return before the walk only with a full buffer
+		hasPartial := false
+		for _, k := range calls {
+			if partialConsumers[an.Callee(k).Static] {
+				hasPartial = true
+			}
+		}
+		if hasPartial {
+			full := an.XBEdgesWhere(g, func(r an.XBRel) bool {
+				if r.Op != token.EQL {
+					return false
+				}
+				lx, okx := r.X.(*ssa.Call)
+				ly, oky := r.Y.(*ssa.Call)
+				return (okx && an.Callee(lx).Builtin == "len" && isCellLoad(r.Y)) || (oky && an.Callee(ly).Builtin == "len" && isCellLoad(r.X))
+			})
+			its := an.Calls(g, an.M("github.com/ipfs/go-ipld-format", "Walker", "Iterate"))
+			for _, r := range an.Returns(g) {
+				afterWalk := false
+				for _, it := range its {
+					if an.Reaches(g, it, r, nil, nil) {
+						afterWalk = true
+					}
+				}
+				if afterWalk {
+					continue
+				}
+				nAcc++
+				c.Check(len(full) > 0 && an.GuardedBy(g, nil, r, full), "O5", "R-DOM", an.FuncName(g), "return-before-walk<=buffer-full", r.Pos(),
+					"the read returns without walking the DAG only when the buffer is already full", "a read can return before walking the DAG although the caller's buffer is not full: short reads where a byte reader would fill the buffer")
+			}
+		}
+	}
+	c.Min("O5 count-accumulation constructs", nAcc, 7)
 
 	// ---- O4: seek arithmetic in the visitor passed to Walker.Seek
 	if seek != nil {
